@@ -135,6 +135,8 @@ def exotic_cases():
         for payload in (False, True):
             if payload and it is None and r not in (None, 'C', 'align(2)'):
                 continue
+            if not payload and r == 'C, u8':
+                continue     # rustc refuses #[repr(C, inttype)] on a fieldless enum (deny-by-default lint conflicting_repr_hints)
             d0 = (' = %s' % bound[it]) if it else (' = -5' if not payload else '')
             if payload and it is None:
                 d0 = ''
